@@ -15,13 +15,17 @@ D(n) == FromNat(n)
 \* identifiers chosen so that numeric order differs from text order (2 < 10 but "10" < "2"),
 \* and case / hyphen / digit suffixes are ordered by ASCII
 Ids == { NumId(D(0)), NumId(D(2)), NumId(D(10)), TxtId(<<97>>), TxtId(<<66>>), TxtId(<<97, 45>>), TxtId(<<97, 48>>),
-         TxtId(<<49, 97>>), TxtId(<<45>>) }      \* "1a" and "-": text identifiers that start with a digit / a hyphen
+         TxtId(<<49, 97>>), TxtId(<<45>>),       \* "1a" and "-": text identifiers that start with a digit / a hyphen
+         NumId(U64_MAX), NumId(NumPred(U64_MAX)) }   \* adjacent numerics that coincide as floating point numbers
+\* the triple universe keeps to the short identifiers (133^3 triples would be too many)
+IdsT == { NumId(D(0)), NumId(D(2)), NumId(D(10)), TxtId(<<97>>), TxtId(<<66>>), TxtId(<<97, 45>>), TxtId(<<49, 97>>) }
+PreListsT == {<<>>} \cup {<<x>> : x \in IdsT} \cup {<<x, y>> : x \in IdsT, y \in IdsT}
 PreLists == {<<>>} \cup {<<x>> : x \in Ids} \cup {<<x, y>> : x \in Ids, y \in Ids}
 TuplesSmall == { <<1, 2, 3>>, <<1, 2, 10>>, <<1, 10, 3>> }
 TuplesLarge == TuplesSmall \cup { <<2, 2, 3>>, <<10, 2, 3>>, <<0, 0, 0>> }
 Tuples == IF Size = "small" THEN TuplesSmall ELSE TuplesLarge
 OrderUniverse == { V4(D(t[1]), D(t[2]), D(t[3]), pre) : t \in Tuples, pre \in PreLists }
-TripleUniverse == { V4(D(1), D(2), D(3), pre) : pre \in PreLists }
+TripleUniverse == { V4(D(1), D(2), D(3), pre) : pre \in PreListsT }
 DiffNums == {0, 1, 2}
 DiffUniverse == { V4(D(a), D(b), D(c), pre) : a \in DiffNums, b \in DiffNums, c \in DiffNums,
                                              pre \in {<<>>, <<N0>>, <<TxtId(<<97>>)>>} }
